@@ -1,6 +1,7 @@
 //go:build verif
 
 // Contracts for package probing (comment-only; read by /verif's govc, never compiled into the product).
+// Spec functions (probeOK, celPass, ...) are declared in /verif/specs/probing.spec.
 package probing
 
 //@ props C17
@@ -13,3 +14,47 @@ package probing
 //@   loop 1 invariant (len(allMsgs) == 0) <==> (forall i int :: 0 <= i && i < idx ==> probeOK(p[i], objstate(obj)))
 //@   loop 1 invariant sarr(allMsgs) == 0 || fresh(sarr(allMsgs))
 //@   loop 1 invariant oldmem_unchanged()
+
+//@ func package-operator.run/pkg/probing.(*GroupKindSelector).Probe
+//@   readonly
+//@   ensures success <==> ((kp.GroupKind.Group == gvkGroup(objstate(obj)) && kp.GroupKind.Kind == gvkKind(objstate(obj))) ==> probeOK(kp.Prober, objstate(obj)))
+//@   ensures success ==> len(messages) == 0
+//@   ensures !success ==> len(messages) >= 1
+
+//@ func package-operator.run/pkg/probing.(*LabelSelector).Probe
+//@   readonly
+//@   ensures success <==> (selMatches(ss.Selector, lblOf(objstate(obj))) ==> probeOK(ss.Prober, objstate(obj)))
+//@   ensures success ==> len(messages) == 0
+//@   ensures !success ==> len(messages) >= 1
+
+//@ func package-operator.run/pkg/probing.toUnstructured
+//@   readonly
+//@   ensures result != nil && fresh(result) && ucontent(result.Object) == objstate(obj)
+
+//@ func package-operator.run/pkg/probing.(*ObservedGenerationProbe).Probe
+//@   readonly
+//@   ensures success <==> (!(nestedIntOk(objstate(obj), "status.observedGeneration") && nestedIntVal(objstate(obj), "status.observedGeneration") != genOf(objstate(obj))) && probeOK(cg.Prober, objstate(obj)))
+//@   ensures success ==> len(messages) == 0
+//@   ensures !success ==> len(messages) >= 1
+
+//@ func package-operator.run/pkg/probing.(*CELProbe).Probe
+//@   readonly
+//@   ensures success <==> celPass(p.Program, objstate(obj))
+//@   ensures success ==> len(messages) == 0
+//@   ensures !success ==> len(messages) >= 1
+
+//@ func package-operator.run/pkg/probing.(*FieldsEqualProbe).Probe
+//@   readonly
+//@   ensures success ==> len(messages) == 0
+//@   ensures !success ==> len(messages) >= 1
+
+//@ func package-operator.run/pkg/probing.(*FieldsEqualProbe).probe
+//@   readonly
+//@   ensures success <==> (nfcOk(ucontent(obj.Object), strSplit(strTrim(fe.FieldA, "."), ".")) && nfcOk(ucontent(obj.Object), strSplit(strTrim(fe.FieldB, "."), ".")) && deepEq(nfcVal(ucontent(obj.Object), strSplit(strTrim(fe.FieldA, "."), ".")), nfcVal(ucontent(obj.Object), strSplit(strTrim(fe.FieldB, "."), "."))))
+
+//@ func package-operator.run/pkg/probing.(*ConditionProbe).probe
+//@   readonly
+//@   ensures success ==> nestedFieldOk(ucontent(obj.Object), "status.conditions") && isslice_any(nestedField(ucontent(obj.Object), "status.conditions"))
+//@   ensures success ==> (exists k int :: 0 <= k && k < len(anyslice(nestedField(ucontent(obj.Object), "status.conditions"))) && condMatch(anyslice(nestedField(ucontent(obj.Object), "status.conditions"))[k], cp.Type) && anymap(anyslice(nestedField(ucontent(obj.Object), "status.conditions"))[k])["status"] == boxstr(cp.Status) && ("status" in anymap(anyslice(nestedField(ucontent(obj.Object), "status.conditions"))[k])) && !(nestedIntOk(ucontent(anymap(anyslice(nestedField(ucontent(obj.Object), "status.conditions"))[k])), "observedGeneration") && nestedIntVal(ucontent(anymap(anyslice(nestedField(ucontent(obj.Object), "status.conditions"))[k])), "observedGeneration") != genOf(ucontent(obj.Object))) && (forall j int :: 0 <= j && j < k ==> !condMatch(anyslice(nestedField(ucontent(obj.Object), "status.conditions"))[j], cp.Type)))
+//@   loop 1 invariant 0 <= idx && idx <= len(conditions)
+//@   loop 1 invariant forall j int :: 0 <= j && j < idx ==> !condMatch(conditions[j], cp.Type)
